@@ -63,3 +63,17 @@ CHECKS["C16"] = {
          "Signals (SIGINT skips the deferred cleanup) and real file systems are outside the model.",
  "technique": "machine-checked proof in Coq + model/implementation correspondence check (exhaustive fault enumeration)",
 }
+
+CHECKS["C14"] = {
+ "text": "Coq theorem no_lost_update over an optimistic-concurrency model (store (def, rev), read-modify-write commands, arbitrary "
+         "schedules as step lists, arbitrary prior store): for ANY number of commands and EVERY schedule, if each command sends the tag "
+         "it read then each update is either rejected leaving the store unchanged or is an edit of the latest definition, and the "
+         "final definition is the fold of exactly the successful edits in write order (invariant by induction over the schedule); the "
+         "refuted variant for empty tags; srcfacts reads from env_set/env_rm/env_edit/client.go that each command passes the tag of "
+         "its own GetEnvironment and that the client forwards it; the real CLI commands run concurrently in-process against a gated "
+         "fake backend under all interleavings of 2 (quick) / 3 (thorough) commands",
+ "note": "Trusted: Coq kernel, srcfacts (call-site shape recognition), correspondence harness (gated httptest backend enforcing tags), "
+         "extraction. Real concurrent processes and the real service are outside the model; env edit --file sends no tag by design "
+         "and is modelled as a blind writer (the class of the refuted theorem).",
+ "technique": "machine-checked proof in Coq + model/implementation correspondence check (exhaustive interleavings)",
+}
